@@ -1777,6 +1777,10 @@ mod crypto {
                 // As documented in the message below, Drop does not panic in that case.
                 return;
             }
+            if self.buf.is_empty() {
+                // Everything written so far has been flushed explicitly: nothing left to do implicitly.
+                return;
+            }
             self.flush().expect("The implicit flush in the Drop of CryptoWriter failed. This causes this panic. If you want to be able to handle this, make sure to call flush() manually. If a manual flush has failed, Drop won't panic.");
         }
     }
@@ -1900,6 +1904,11 @@ mod crypto {
             }
             self.failed = true;
             let mut offset = 0;
+            if self.buf.is_empty() {
+                // Nothing to encrypt, but the inner writer may still hold bytes (the nonce written by new(),
+                // or chunks it buffered itself): a flush must reach it.
+                self.writer.flush()?;
+            }
 
             let mut tempbuf = Vec::new();
             if self.buf.len() > crypto_bufsize() {
